@@ -11,6 +11,6 @@ def plan(tier):
     return p + [pcommon.reload_search(tier)]
 
 def main(tier):
-    return pcommon.run_plan('C04', tier, plan(tier), ('C04.',), NEED, extra_cov=lambda run: pcommon.serial_sweep(run, ('C04.',)))
+    return pcommon.run_plan('C04', tier, plan(tier), ('C04.',), NEED, pre_cov=lambda run: pcommon.serial_sweep(run, ('C04.',)))
 
 replay = pcommon.replay
